@@ -65,8 +65,12 @@ def run(prop, tier, seed, variants, rule, assumptions):
     # distribute behaviours: every binary gets all simulated histories; the one-step behaviours are dealt out
     tags = sorted(res)
     per = {t: list(sims) for t in tags}
-    share = ones if tier == "thorough" else ones[seed % 7::7]
-    for i, b in enumerate(share): per[tags[i % len(tags)]].append(b)
+    # every binary replays EVERY single call (operation x destination x operand registers) once; the output mask of the
+    # planned call is 0 here because each Jacobian-returning step is re-evaluated under all other masks anyway ("alts");
+    # the thorough tier also replays the planned masks
+    share = ones if tier == "thorough" else [b for b in ones if b[0]["mask"] == 0]
+    rep.extra["single_call_behaviours_per_binary"] = len(share)
+    for t in tags: per[t] += share
     def one(t):
         pp = os.path.join(wd, "plan_%s.txt" % t); open(pp, "w").write(histplan.to_plan(per[t]))
         op = os.path.join(wd, "trace_%s.ndjson" % t)
